@@ -515,8 +515,8 @@ impl StdHdr {
                 trp: None,
                 quantizer: self.pquant,
                 cpm: self.cpm,
-                trb: if self.pb { Some(self.trb) } else { None },
-                dbquant: if self.pb { Some(self.dbquant) } else { None },
+                trb: if self.pb { Some(self.trb & 7) } else { None },
+                dbquant: if self.pb { Some(self.dbquant & 3) } else { None },
                 extra: self.pei.clone(),
             };
             if scalability {
@@ -632,7 +632,8 @@ impl StdHdr {
             trp,
             quantizer: self.pquant,
             cpm: p.cpm,
-            trb: if is_pb { Some(self.trb) } else { None },
+            // TRB is transmitted in 3 bits, or 5 with a custom picture clock frequency
+            trb: if is_pb { Some(self.trb & if custom_pcf { 31 } else { 7 }) } else { None },
             dbquant: if is_pb { Some(self.dbquant) } else { None },
             extra: self.pei.clone(),
         };
